@@ -64,6 +64,24 @@ struct GtOptions
     // read, so that tapes decode alike with and without it) become  k = (F(u) - F(W)) + k  with k a known variable as seen
     // in the system's component (possibly in scaled units): a bare known variable as one side of an implicit equation.
     bool nlaBareKnown = false;
+    // ---- C03 extensions after the independent exploration (all default off; when off nothing below reads the tape or changes a
+    // model, so the saved tapes of C05 / C06 / C17 / C20 decode as before). Decisions are derived from content hashes; only the
+    // creation of the extra instances they need reads the tape (after the NLA section, before interfaces / math blocks).
+    // NLA systems of several equations: equation i becomes  F_i(u) - g_i = 0  /  F_i(u) = g_i + 0  with a new variable
+    // g_i = F_i(W) of its own, so that each equation of the system reads a variable that no sibling reads.
+    bool nlaSparseReads = false;
+    // Variables computed from the unknowns of an NLA system (role ALGEBRAIC in the truth: judged after the compute calls only).
+    bool nlaDependents = false;
+    // r = dx/dt (+ literal) in a component that sees the state and the variable of integration through (mostly scaled) instances.
+    bool rateReaders = false;
+    // Constants (chains of them, declared before or after what they name) and states whose initial value is the NAME of a
+    // constant's instance, that instance being mostly scaled against the constant's home variable.
+    bool initByName = false;
+    // Numeric initial values respelled without changing their value: upper-case E, signed / zero exponents, trailing dot,
+    // leading zero, shifted mantissa.
+    bool exoticReals = false;
+    // Unary plus around sub-expressions, in particular around a piecewise that is the value / the condition of a piece.
+    bool unaryPlus = false;
     std::vector<Op> operatorPool; // empty = all
 };
 
